@@ -812,6 +812,21 @@ func (c *Component) handleServerResponse(pkt *dataplane.ParsedPacket) error {
 		return nil
 	}
 
+	// The transaction id is indexed when the DISCOVER / REQUEST arrives, before
+	// the AAA answer (a rejected session is removed from the index again). While
+	// the authentication is still pending a server reply must not reach the
+	// subscriber, and an ACK must not bind the session.
+	sess.mu.Lock()
+	pending := sess.AAAInFlight
+	sess.mu.Unlock()
+	if pending {
+		c.logger.WithGroup(logger.IPoEDHCP4).Warn("Dropping DHCPv4 server reply for a session whose authentication is pending",
+			"message_type", msgType.String(),
+			"session_id", sess.SessionID,
+			"xid", fmt.Sprintf("0x%x", pkt.DHCPv4.Xid))
+		return nil
+	}
+
 	c.logger.Debug("Forwarding DHCP to client", "message_type", msgType.String(), "mac", sess.MAC.String(), "session_id", sess.SessionID, "xid", fmt.Sprintf("0x%x", pkt.DHCPv4.Xid))
 
 	var vmac net.HardwareAddr
